@@ -4,8 +4,8 @@
      Pool  (R)  odak/learn/perception/foveation.py : make_eccentricity_distance_maps,
                 make_pooling_size_map_pixels/_lod, make_equi_pooling_size_map_pixels/_lod
      Blur  (Z, Q) odak/learn/perception/radially_varying_blur.py : RadiallyVaryingBlur.blur
-   The model is the REPAIRED behaviour (fix-c18); the former behaviour is kept as `*_legacy`
-   definitions for the regression theorems.  External library operations (ReflectionPad2d,
+   The model is the REPAIRED behaviour (fix-c18, fix2-c18); former behaviours are kept as `*_legacy` /
+   `*_reflect_only` definitions for the regression theorems.  External library operations (F.pad,
    interpolate) are modelled by their documented index arithmetic (pad) or by a contract
    (interpolate is a convex average; Section variables in Lemmas.v). *)
 From Coq Require Import ZArith List Bool Reals QArith Qround.
@@ -22,40 +22,52 @@ Definition required (h n : Z) : Z := ceil_div h (2 ^ n) * 2 ^ n.
 Definition pad_amount (h n : Z) : Z := required h n - h.
 Definition needs_pad (h w n : Z) : bool := (h <? required h n) || (w <? required w n).
 
-(* the tuple handed to torch.nn.ReflectionPad2d, which reads it as (left, right, top, bottom) *)
+(* ---- what the property speaks about: ANY padding that appends rows below and columns to the right;
+   `border` is whatever the padding writes into the added pixels (reflection, replication, zeros, ...) *)
+Definition pad_generic {V : Type} (border : Z -> Z -> V) (h w n : Z) (img : Z -> Z -> V) : (Z * Z) * (Z -> Z -> V) :=
+  if needs_pad h w n
+  then ((h + pad_amount h n, w + pad_amount w n), fun i j => if (i <? h) && (j <? w) then img i j else border i j)
+  else ((h, w), img).
+
+(* ---- the code: torch.nn.functional.pad(image, (0, dw, 0, dh), mode), mode = "reflect" when both amounts
+   are smaller than the side they reflect, else "replicate".  The tuple reads (left, right, top, bottom). *)
 Definition pad_tuple (h w n : Z) : Z * Z * Z * Z := (0, pad_amount w n, 0, pad_amount h n).
 Definition pad_tuple_legacy (h w n : Z) : Z * Z * Z * Z := (0, 0, pad_amount h n, pad_amount w n).
-
-(* torch.nn.ReflectionPad2d((l, r, t, b)) on an h x w image: defined iff every amount is smaller than
-   the side it reflects; out[i][j] = in[refl h (i - t)][refl w (j - l)] *)
+Definition reflect_ok (h w n : Z) : bool := (pad_amount h n <? h) && (pad_amount w n <? w).
 Definition refl (n i : Z) : Z := if i <? 0 then - i else if i <? n then i else 2 * (n - 1) - i.
+Definition edge (n i : Z) : Z := Z.max 0 (Z.min i (n - 1)).
+Definition src_index (reflect : bool) (n i : Z) : Z := if reflect then refl n i else edge n i.
+Definition pad_image_for_pyramid {V : Type} (h w n : Z) (img : Z -> Z -> V) : (Z * Z) * (Z -> Z -> V) :=
+  if needs_pad h w n
+  then let m := reflect_ok h w n in
+       ((h + pad_amount h n, w + pad_amount w n), fun i j => img (src_index m h i) (src_index m w j))
+  else ((h, w), img).
+
+(* ---- former behaviours (regression theorems).  torch.nn.ReflectionPad2d((l, r, t, b)) on an h x w image is
+   defined iff every amount is smaller than the side it reflects; out[i][j] = in[refl h (i-t)][refl w (j-l)] *)
 Definition reflection_pad2d {V : Type} (tp : Z * Z * Z * Z) (h w : Z) (img : Z -> Z -> V)
   : option ((Z * Z) * (Z -> Z -> V)) :=
   let '(l, r, t, b) := tp in
   if (0 <=? l) && (0 <=? r) && (0 <=? t) && (0 <=? b) && (l <? w) && (r <? w) && (t <? h) && (b <? h)
   then Some ((h + t + b, w + l + r), fun i j => img (refl h (i - t)) (refl w (j - l)))
   else None.
-
 Definition pad_with {V : Type} (tuple : Z -> Z -> Z -> Z * Z * Z * Z) (h w n : Z) (img : Z -> Z -> V)
   : option ((Z * Z) * (Z -> Z -> V)) :=
   if needs_pad h w n then reflection_pad2d (tuple h w n) h w img else Some ((h, w), img).
-Definition pad_image_for_pyramid {V : Type} := @pad_with V pad_tuple.
+(* reflection only (raised on small images) and, before that, the wrong tuple order *)
+Definition pad_image_for_pyramid_reflect_only {V : Type} := @pad_with V pad_tuple.
 Definition pad_image_for_pyramid_legacy {V : Type} := @pad_with V pad_tuple_legacy.
 
 (* ---- executable forms for the per-run correspondence (B2) *)
 Definition get (rows : list (list Z)) (i j : Z) : Z := nth (Z.to_nat j) (nth (Z.to_nat i) rows []) 0.
 Definition tabulate (H W : Z) (f : Z -> Z -> Z) : list (list Z) :=
   map (fun i => map (fun j => f (Z.of_nat i) (Z.of_nat j)) (seq 0 (Z.to_nat W))) (seq 0 (Z.to_nat H)).
-(* whole arrays: Some ((H, W), rows) or None when ReflectionPad2d rejects the amounts *)
-Definition run_pad (h w n : Z) (rows : list (list Z)) : option ((Z * Z) * list (list Z)) :=
-  match pad_image_for_pyramid h w n (get rows) with
-  | Some ((H, W), f) => Some ((H, W), tabulate H W f)
-  | None => None
-  end.
-(* tuple + output size only (large shapes) *)
-Definition pad_summary (h w n : Z) : (bool * (Z * Z * Z * Z)) * option (Z * Z) :=
-  ((needs_pad h w n, pad_tuple h w n),
-   match pad_image_for_pyramid h w n (fun _ _ => 0) with Some (s, _) => Some s | None => None end).
+Definition run_pad (h w n : Z) (rows : list (list Z)) : (Z * Z) * list (list Z) :=
+  let '((H, W), f) := pad_image_for_pyramid h w n (get rows) in ((H, W), tabulate H W f).
+(* what the property fixes: is the image touched at all, and the output size (the original block starts at (0,0));
+   auxiliary: the mode and tuple the code is expected to hand to torch *)
+Definition pad_summary (h w n : Z) : (bool * (Z * Z)) * (bool * (Z * Z * Z * Z)) :=
+  ((needs_pad h w n, fst (pad_image_for_pyramid h w n (fun _ _ => 0))), (reflect_ok h w n, pad_tuple h w n)).
 End Pad.
 
 (* ================================================================== Pool *)
